@@ -122,7 +122,28 @@ def handleDcep (pl : Pl) (sid : UInt16) (data : Bytes) : Pl × Bool :=
       | none => (pl, true)
     else (pl, true)
 
-/-- `process_data_payload` -/
+def getDcepBuf (bs : List (UInt16 × Bytes)) (sid : UInt16) : Bytes :=
+  match bs.find? (fun e => e.1 == sid) with
+  | some e => e.2
+  | none => []
+
+def setDcepBuf (bs : List (UInt16 × Bytes)) (sid : UInt16) (b : Bytes) : List (UInt16 × Bytes) :=
+  (sid, b) :: bs.filter (fun e => e.1 != sid)
+
+/-- the DCEP branch of `process_data_payload` after the SSN placeholder: a message is collected
+from its B fragment to its E fragment (an orphan fragment is dropped), then handed to `handle_dcep`;
+a `handle_dcep` error only drops the message (the chunk still counts as processed) -/
+def procDcep (pl : Pl) (c : DChunk) : Pl :=
+  if c.bBit && c.eBit then (handleDcep pl c.sid c.data).1
+  else
+    let cur := getDcepBuf pl.dcepBuf c.sid
+    if !c.bBit && cur.isEmpty then pl
+    else
+      let buf := (if c.bBit then [] else cur) ++ c.data
+      if !c.eBit then { pl with dcepBuf := setDcepBuf pl.dcepBuf c.sid buf }
+      else (handleDcep { pl with dcepBuf := setDcepBuf pl.dcepBuf c.sid [] } c.sid buf).1
+
+/-- `process_data_payload` (never returns `Err` any more: the second component is always `true`) -/
 def procPayload : Proc := fun pl c =>
   if c.ppid.toNat == dcPpidDcep then
     let pl1 :=
@@ -130,8 +151,11 @@ def procPayload : Proc := fun pl c =>
         let r := (getStream pl.streams c.sid).enqueue c.ssn []
         { pl with streams := setStream pl.streams c.sid r.1 }
       else pl
-    handleDcep pl1 c.sid c.data
+    (procDcep pl1 c, true)
   else (procData pl c, true)
+
+theorem procPayload_ok (pl : Pl) (c : DChunk) : (procPayload pl c).2 = true := by
+  unfold procPayload; split <;> rfl
 
 /-- `handle_data` -/
 def handleData (s : Rx) (c : DChunk) : Rx := handleDataWith procPayload s c
